@@ -3,7 +3,8 @@
    as a state-passing function.  The hashbrown table is modelled as what a correct open-addressing
    table is: an association list in insertion order, lookups by the row's own equality
    ([PartialEqVariadic::eq] / [eq_ref], i.e. item-wise [==]).  [reserve] is therefore a no-op
-   of the model (see C10 finding: the real [reserve] call of the counted set is not). *)
+   of the model (the counted set's [reserve] call used to rehash by the wrong key -- C10 finding,
+   fixed in /repo by 38aff06f64c). *)
 From Coq Require Export List Bool NArith Arith Lia.
 Export ListNotations.
 
